@@ -507,7 +507,9 @@ mod nodes_gen;
 /// size() of a freshly built node of the named variant (leaf children) must equal its number of nodes.
 fn node_size(p: &str) -> String {
     let name = str_param(p, "name").unwrap_or_default();
-    let leaf = RSV::new_value(0, Provenance::Synthetic);
+    // children are small trees (3 nodes each), so that a child counted as "1" instead of by its size is visible
+    let l = RSV::new_value(0, Provenance::Synthetic);
+    let leaf = RSV::new_synthetic(0, RSVD::Add { left: l.clone(), right: l });
     match nodes_gen::node_data(&name, &leaf) {
         None => format!("{{\"violates\": false, \"outcome\": \"unknown variant {name}\"}}"),
         Some(d) => {
